@@ -152,8 +152,8 @@ RESOLVER = {
     "C03": {"inv": ["C03"], "reps": (4, 10), "family": "C03", "random": [("general", 1500, 15000), ("wild", 1000, 10000)]},
     "C04": {"inv": ["C04"], "reps": (3, 6), "family": "C04", "life": True,
             "random": [("fail", 3500, 35000), ("wild", 1000, 10000), ("redeffail", 600, 6000)]},
-    "C05": {"inv": ["C05"], "reps": (5, 12), "family": "C05",
-            "random": [("single", 2000, 25000), ("namedsingle", 2500, 40000), ("multi", 1200, 15000), ("general", 800, 10000)]},
+    "C05": {"inv": ["C05", "C05gen"], "minv": ["C05"], "reps": (5, 12), "family": "C05",
+            "random": [("single", 2000, 25000), ("namedsingle", 2500, 40000), ("multi", 1200, 15000), ("general", 800, 10000), ("gens", 800, 8000)]},
     "C06": {"inv": ["C06"], "reps": (3, 6), "family": "C06", "life": True,
             "random": [("wild", 3000, 30000), ("general", 1500, 15000), ("multi", 1000, 10000), ("redef", 500, 5000),
                        ("convert", 500, 5000)]},
@@ -458,7 +458,8 @@ def run_resolver(prop, tier, seed, keep=False):
             ev.cov["filter_expressions"] = len(fdescs)
         if spec.get("life") and rc == 0:
             # the same invariants over histories of calls on shared objects (memoized converters, reused functions)
-            rc = life_stage(w, prop, spec["inv"], tier, seed, ev)
+            # (plus C01 and C11: a memoized failure replayed without its error shows as an invented argument / a second execution)
+            rc = life_stage(w, prop, spec["inv"] + [i for i in ("C01", "C11") if i not in spec["inv"]], tier, seed, ev)
         if mres["violated"] and rc == 0:
             # a design-level counterexample that the real code did not exhibit: no verdict
             ev.cov["unreproduced_model_cex"] = mres["violated"]
